@@ -209,14 +209,44 @@ where
             #[cfg(feature = "tracing")]
             debug!(coalesce = %name, "Request executing as leader");
 
+            // The key is registered from here on: if `inner.call` panics it must
+            // not stay registered, or every later request for it would wait forever.
+            let mut registration = Registration {
+                key: Some(key),
+                in_flight: Arc::clone(&self.in_flight),
+            };
             let future = self.inner.call(request);
-            let in_flight = Arc::clone(&self.in_flight);
 
             CoalesceFuture::Leading {
                 future: Box::pin(future),
-                key: Some(key),
-                in_flight,
+                key: registration.key.take(),
+                in_flight: Arc::clone(&registration.in_flight),
             }
+        }
+    }
+}
+
+/// Un-registers a leader's key if dropped while still holding it, i.e. when the
+/// inner service panics between registration and construction of the future.
+struct Registration<K, Res, E>
+where
+    K: Hash + Eq + Clone,
+    Res: Clone,
+    E: Clone,
+{
+    key: Option<K>,
+    in_flight: Arc<InFlight<K, Res, E>>,
+}
+
+impl<K, Res, E> Drop for Registration<K, Res, E>
+where
+    K: Hash + Eq + Clone,
+    Res: Clone,
+    E: Clone,
+{
+    fn drop(&mut self) {
+        if let Some(k) = self.key.take() {
+            self.in_flight.cancel(&k);
         }
     }
 }
